@@ -57,6 +57,8 @@ type Push struct {
 	SZ           int64
 	Comb         bool
 	Script       []Ev
+	Stop         bool  // PF: Proxy.StopCaching for this fetch
+	Ks           []int // PF: sizes of the caller's Read calls
 }
 
 type Case struct {
@@ -66,6 +68,7 @@ type Case struct {
 	Lim    string // RA/CB: "-" or the io.LimitReader bound
 	Ops    []string
 	Pushes []Push
+	Obs    string // CC: the observed outcome handed to the model for the membership test
 }
 
 func encScript(s []Ev) string {
@@ -197,6 +200,18 @@ func (c *Case) hashes() string {
 	for _, p := range c.Pushes {
 		st := streamOf(p.Script)
 		lens := map[int]bool{0: true, len(st): true}
+		if c.Op == "PF" {
+			r := newReader(p)
+			for _, k := range p.Ks {
+				r.Read(make([]byte, k))
+			}
+			lens[r.delivered] = true
+			for _, q := range c.Pushes { // a cached blob re-served under another step's reads
+				if int(q.SZ) >= 0 && int(q.SZ) <= r.delivered {
+					lens[int(q.SZ)] = true
+				}
+			}
+		}
 		for _, q := range c.Pushes {
 			for _, d := range []int64{q.SZ, q.SZ + 1} {
 				if d >= 0 && d <= int64(len(st)) {
@@ -232,6 +247,21 @@ func (c *Case) body() string {
 		return fmt.Sprintf("CB %d %s %d %s %s %s", c.BufSz, common.Hex(p.DG), p.SZ, b2s(p.Comb), c.Lim, encScript(p.Script))
 	case "VR":
 		return fmt.Sprintf("VR %s %d %s %s %s", common.Hex(p.DG), p.SZ, b2s(p.Comb), encScript(p.Script), strings.Join(c.Ops, ","))
+	case "PF":
+		var sb strings.Builder
+		fmt.Fprintf(&sb, "PF %s %d", c.Kind, len(c.Pushes))
+		for _, p := range c.Pushes {
+			ks := "-"
+			if len(p.Ks) > 0 {
+				parts := make([]string, len(p.Ks))
+				for i, k := range p.Ks {
+					parts[i] = strconv.Itoa(k)
+				}
+				ks = strings.Join(parts, ",")
+			}
+			fmt.Fprintf(&sb, " %s %s %s %d %s %s %s", b2s(p.Stop), common.Hex(p.MT), common.Hex(p.DG), p.SZ, b2s(p.Comb), encScript(p.Script), ks)
+		}
+		return sb.String()
 	case "ST", "CC", "PX":
 		var sb strings.Builder
 		fmt.Fprintf(&sb, "%s %s %d", c.Op, c.Kind, len(c.Pushes))
@@ -247,7 +277,11 @@ func (c *Case) body() string {
 func (c *Case) line() string {
 	b := c.body()
 	i := strings.IndexByte(b, ' ')
-	return b[:i] + " " + c.hashes() + b[i:]
+	l := b[:i] + " " + c.hashes() + b[i:]
+	if c.Obs != "" {
+		l += " OBS " + c.Obs
+	}
+	return l
 }
 
 func atoi(s string) int64 {
@@ -272,6 +306,19 @@ func decodeBody(body string) *Case {
 	case "VR":
 		c.Pushes = []Push{{DG: common.UnHex(f[1]), SZ: atoi(f[2]), Comb: f[3] == "1", Script: decScript(f[4])}}
 		c.Ops = strings.Split(f[5], ",")
+	case "PF":
+		c.Kind = f[1]
+		n := int(atoi(f[2]))
+		for i := 0; i < n; i++ {
+			g := f[3+7*i:]
+			p := Push{Stop: g[0] == "1", MT: common.UnHex(g[1]), DG: common.UnHex(g[2]), SZ: atoi(g[3]), Comb: g[4] == "1", Script: decScript(g[5])}
+			if g[6] != "-" {
+				for _, k := range strings.Split(g[6], ",") {
+					p.Ks = append(p.Ks, int(atoi(k)))
+				}
+			}
+			c.Pushes = append(c.Pushes, p)
+		}
 	case "ST", "CC", "PX":
 		c.Kind = f[1]
 		n := int(atoi(f[2]))
@@ -699,7 +746,7 @@ func runST(id string, c *Case) string {
 			if !xBefore && rerr == nil && !(c.Kind == "file" && false) {
 				fail(id, "failed-push-fetchable", tag+"Push failed ("+res+") but Fetch succeeds", c)
 			}
-			if c.Kind != "file" && lAfter != lBefore {
+			if lAfter != lBefore { // (file store: the partial file of a failed push is removed again)
 				fail(id, "failed-push-stored", tag+"Push failed ("+res+") but the stored blobs changed: "+lBefore+" -> "+lAfter, c)
 			}
 		}
@@ -818,6 +865,17 @@ func runCC(id string, c *Case) string {
 			fail(id, "concurrent-listing", "stored blobs after concurrent pushes: "+joinListing(l), c)
 		}
 	}
+	if c.Kind == "oci" && len(c.Pushes) <= 3 && len(want) <= 120 {
+		// trace correspondence: the observed outcome must be a terminal outcome of the
+		// model's transition system (the model answers MEMBER)
+		res := make([]string, len(errs))
+		for i, e := range errs {
+			res[i] = errEnum(e)
+		}
+		c.Obs = fmt.Sprintf("%s %s I=%d", strings.Join(res, ","), joinListing(e.listing()), e.ingest())
+		run.TracesAgainstImpl++
+		return "MEMBER"
+	}
 	return "-"
 }
 
@@ -904,6 +962,94 @@ func runPX(id string, c *Case) string {
 	return "-"
 }
 
+// ---------------------------------------------------------------- caching proxy, model correspondence
+
+type switchBase struct{ cur Push }
+
+func (s *switchBase) Fetch(context.Context, ocispec.Descriptor) (io.ReadCloser, error) {
+	return io.NopCloser(newReader(s.cur)), nil
+}
+func (s *switchBase) Exists(context.Context, ocispec.Descriptor) (bool, error) { return true, nil }
+
+func runPF(id string, c *Case) string {
+	cache := hooks.NewMemory()
+	base := &switchBase{}
+	var px *hooks.Proxy
+	if lim, ok := limitOf(c.Kind); ok {
+		px = hooks.NewProxyWithLimit(base, cache, lim)
+	} else {
+		px = hooks.NewProxy(base, cache)
+	}
+	type stepres struct {
+		obs    string
+		handed []byte
+	}
+	var obs []string
+	for i, p := range c.Pushes {
+		d := descOf(p)
+		base.cur = p
+		px.StopCaching = p.Stop
+		before := hooks.MemoryEntries(cache)
+		ch := make(chan stepres, 1)
+		go func() {
+			var sb strings.Builder
+			var handed []byte
+			rc, err := px.Fetch(ctx, d)
+			if err != nil {
+				ch <- stepres{obs: "fetch=" + errEnum(err)}
+				return
+			}
+			for _, k := range p.Ks {
+				buf := make([]byte, k)
+				n, e := rc.Read(buf)
+				handed = append(handed, buf[:n]...)
+				fmt.Fprintf(&sb, "r=%s/%s ", dstr(buf[:n]), errEnum(e))
+			}
+			fmt.Fprintf(&sb, "c=%s |", errEnum(rc.Close()))
+			ch <- stepres{obs: sb.String(), handed: handed}
+		}()
+		var r stepres
+		select {
+		case r = <-ch:
+		case <-time.After(20 * time.Second):
+			fail(id, "proxy-blocked", fmt.Sprintf("fetch %d through the caching proxy (%s) did not return within 20s", i+1, c.Kind), c)
+			return "BLOCKED"
+		}
+		obs = append(obs, r.obs)
+		// ---- oracle (independent of the model)
+		tag := fmt.Sprintf("proxy fetch %d/%d (%s): ", i+1, len(c.Pushes), c.Kind)
+		st := streamOf(p.Script)
+		var cachedBefore []byte
+		hit := false
+		for _, e := range before {
+			if e.MediaType == p.MT && e.Digest == p.DG && e.Size == p.SZ {
+				hit, cachedBefore = true, e.Content
+			}
+		}
+		if hit {
+			if !bytes.HasPrefix(cachedBefore, r.handed) {
+				fail(id, "proxy-wrong-bytes", tag+"cache hit, but the bytes handed out are not the cached ones", c)
+			}
+		} else if !bytes.HasPrefix(st, r.handed) {
+			fail(id, "proxy-wrong-bytes", tag+"the bytes handed out are not a prefix of what the base store served", c)
+		}
+		for _, e := range hooks.MemoryEntries(cache) {
+			if !matches(e.Content, e.Digest, e.Size) {
+				fail(id, "cache-holds-bad", tag+fmt.Sprintf("cache holds %d bytes under %s size %d", len(e.Content), e.Digest, e.Size), c)
+			}
+			if e.MediaType == p.MT && e.Digest == p.DG && e.Size == p.SZ && !hit {
+				if p.Stop {
+					fail(id, "cache-filled-while-stopped", tag+"StopCaching is set but the cache was filled", c)
+				}
+				if !bytes.HasPrefix(st, e.Content) {
+					fail(id, "cache-holds-foreign", tag+"the cached bytes were never served by the base store", c)
+				}
+			}
+		}
+	}
+	return strings.Join(obs, " ") + " B=" + joinListing(memListing(cache))
+}
+
 // ---------------------------------------------------------------- dispatch
 
 func runCase(c *Case) {
@@ -922,6 +1068,8 @@ func runCase(c *Case) {
 		obs = runCC(id, c)
 	case "PX":
 		obs = runPX(id, c)
+	case "PF":
+		obs = runPF(id, c)
 	}
 	run.Case(id, c.line(), obs)
 	run.Count("op:" + c.Op)
@@ -1180,6 +1328,50 @@ func genSingle(r *common.Rand, op string) *Case {
 	return c
 }
 
+func genKs(r *common.Rand, total int) []int {
+	var ks []int
+	left := total + 2
+	for n := 0; n < 12 && left > 0; n++ {
+		k := common.Pick(r, []int{0, 1, 2, 3, 7, 64, 5000})
+		if r.Chance(1, 3) {
+			k = 1 + r.Intn(total+2)
+		}
+		ks = append(ks, k)
+		left -= k
+	}
+	if r.Chance(4, 5) { // usually read to the end (and once more)
+		ks = append(ks, 5000, 1)
+	}
+	return ks
+}
+
+func genProxy(r *common.Rand) *Case {
+	c := &Case{Op: "PF", Kind: "mem"}
+	data := genData(r)
+	if r.Chance(1, 3) {
+		lim := int64(len(data)) + int64(r.Intn(5)) - 2
+		if r.Chance(1, 3) {
+			lim = 1 << 20
+		}
+		if lim < 0 {
+			lim = 0
+		}
+		c.Kind = fmt.Sprintf("lim%d", lim)
+	}
+	n := 1 + r.Intn(3)
+	for i := 0; i < n; i++ {
+		p := genPush(r, data)
+		if i > 0 && r.Chance(1, 2) {
+			prev := c.Pushes[r.Intn(i)]
+			p.DG, p.SZ, p.MT = prev.DG, prev.SZ, prev.MT
+		}
+		p.Stop = r.Chance(1, 5)
+		p.Ks = genKs(r, len(streamOf(p.Script)))
+		c.Pushes = append(c.Pushes, p)
+	}
+	return c
+}
+
 func genBig(r *common.Rand, kind string) *Case {
 	data := randBytes(r, 32768+r.Intn(40000))
 	p := Push{MT: mediaTypes[0], DG: digestFor("sha256", data), SZ: int64(len(data))}
@@ -1208,11 +1400,16 @@ func genBig(r *common.Rand, kind string) *Case {
 }
 
 func genConcurrent(r *common.Rand, kind string) *Case {
-	data := randBytes(r, 1+r.Intn(3000))
+	size := 1 + r.Intn(3000)
+	n := 1 + r.Intn(4)
+	if kind == "oci" && r.Chance(2, 3) { // small enough for the model's exhaustive interleaving
+		n = 1 + r.Intn(2)
+		size = 1 + r.Intn(120)
+	}
+	data := randBytes(r, size)
 	good := Push{MT: mediaTypes[0], DG: digestFor("sha256", data), SZ: int64(len(data))}
 	good.Script = chunk(r, data, false)
 	c := &Case{Op: "CC", Kind: kind, Pushes: []Push{good}}
-	n := 1 + r.Intn(4)
 	for i := 0; i < n; i++ {
 		p := good
 		p.Comb = r.Bool()
@@ -1280,7 +1477,7 @@ func main() {
 	}
 	r := run.Rand
 	exhaustive(run.Scale(4, 8))
-	n := run.Scale(8000, 300000)
+	n := run.Scale(8000, 200000)
 	for i := 0; i < n; i++ {
 		switch k := r.Intn(20); {
 		case k < 3:
@@ -1304,8 +1501,11 @@ func main() {
 	for i := 0; i < run.Scale(10, 100); i++ {
 		runCase(genBig(r, common.Pick(r, []string{"oci", "file", "mem"})))
 	}
-	for i := 0; i < run.Scale(400, 20000); i++ {
+	for i := 0; i < run.Scale(400, 6000); i++ {
 		runCase(genConcurrent(r, common.Pick(r, []string{"oci", "oci", "mem", "lim1000000"})))
+	}
+	for i := 0; i < run.Scale(700, 15000); i++ {
+		runCase(genProxy(r))
 	}
 	for i := 0; i < run.Scale(300, 15000); i++ {
 		p := genPush(r, genData(r))
